@@ -19,6 +19,7 @@ import (
 	"errors"
 	"io"
 	"net"
+	"sync"
 
 	"github.com/honeytrap/honeytrap/director"
 	"github.com/honeytrap/honeytrap/event"
@@ -185,6 +186,10 @@ func (s *sshProxyService) Handle(ctx context.Context, conn net.Conn) error {
 			event.Custom("ssh.channel-type", newChannel.ChannelType()),
 		))
 
+		// held while the outcome of a channel request is on its way back: copyFn must not
+		// close a channel under a reply that the other side has already given
+		var inflight sync.Mutex
+
 		requestFn := func(in <-chan *ssh.Request, dst ssh.Channel) {
 			// no dst.Close() here: the request stream of a channel ends when that channel
 			// is closed, which can be before the data copier (copyFn, which closes dst
@@ -193,11 +198,15 @@ func (s *sshProxyService) Handle(ctx context.Context, conn net.Conn) error {
 			for req := range in {
 				log.Debugf("Request: %s %s %s %s\n", dst, req.Type, req.WantReply, req.Payload)
 
+				inflight.Lock()
+
 				b, err := dst.SendRequest(req.Type, req.WantReply, req.Payload)
 				if err == io.EOF {
+					inflight.Unlock()
 					return
 				} else if err != nil {
 					log.Errorf("Error sending request: %s", err)
+					inflight.Unlock()
 					return
 				}
 
@@ -237,6 +246,8 @@ func (s *sshProxyService) Handle(ctx context.Context, conn net.Conn) error {
 					log.Errorf("wantreply: ", err)
 				}
 
+				inflight.Unlock()
+
 				s.c.Send(event.New(
 					options...,
 				))
@@ -253,7 +264,9 @@ func (s *sshProxyService) Handle(ctx context.Context, conn net.Conn) error {
 				log.Error(err.Error())
 			}
 
+			inflight.Lock()
 			dst.Close()
+			inflight.Unlock()
 		}
 
 		var wrappedChannel io.ReadCloser = channel
